@@ -241,7 +241,7 @@ Definition native_body (m name : string) (args : list value) (spans : list span)
         if (hi <? lo)%Z then RErr InvalidRange (sp 1%nat) st
         else
           let '(d, rest) := match o_draws (orc st) with d :: r => (d, r) | [] => (0, []) end in
-          let st' := set_orc st (mkOracle (o_libm (orc st)) rest (o_clock (orc st)) (o_files (orc st))) in
+          let st' := set_orc st (mkOracle (o_libm (orc st)) rest (o_clock (orc st)) (o_files (orc st)) (o_fs (orc st))) in
           ROk (VNum (of_Z (lo + Z.of_N d mod (hi - lo + 1))%Z)) st'
       | _, _ => RPanic PanicTable st
       end
@@ -356,10 +356,100 @@ Definition native_body (m name : string) (args : list value) (spans : list span)
   | _ => RPanic PanicTable st
   end.
 
-(* FS procedures are modelled separately (FsModel.v); inside a run they are not available *)
+(** ** the FS module on a tree of files (src/standard_library/file_system.rs over std::fs).
+    Paths are compared as written (no normalisation: the checks use canonical absolute paths). *)
+Definition fs_t := list (text * fsent).
+Fixpoint fs_get (fs : fs_t) (p : text) : option fsent :=
+  match fs with [] => None | (q, e) :: r => if text_eqb p q then Some e else fs_get r p end.
+Fixpoint fs_del (fs : fs_t) (p : text) : fs_t :=
+  match fs with [] => [] | (q, e) :: r => if text_eqb p q then fs_del r p else (q, e) :: fs_del r p end.
+Definition fs_put (fs : fs_t) (p : text) (e : fsent) : fs_t := fs_del fs p ++ [(p, e)].
+
+Definition parent_of (p : text) : text :=
+  match take_while (fun c => negb (c =? 47)) (rev p) with
+  | (_, []) => []
+  | (_, _ :: d) => rev d
+  end.
+Definition is_dir (fs : fs_t) (p : text) : bool := match fs_get fs p with Some FDir => true | _ => false end.
+Definition is_file (fs : fs_t) (p : text) : bool := match fs_get fs p with Some (FFile _) => true | _ => false end.
+Definition children (fs : fs_t) (p : text) : list text :=
+  map fst (filter (fun e => text_eqb (parent_of (fst e)) p) fs).
+(* strictly below p: p ++ "/" is a prefix *)
+Definition below (p q : text) : bool := prefix_b (p ++ [47]) q.
+
+(* create_dir_all: create the missing ancestors top-down; fails if an existing ancestor is a file *)
+Fixpoint mkdir_p (fuel : nat) (fs : fs_t) (p : text) : option fs_t :=
+  match fuel with O => None | S f =>
+  match fs_get fs p with
+  | Some FDir => Some fs
+  | Some (FFile _) => None
+  | None =>
+    match p with
+    | [] => None
+    | _ => match mkdir_p f fs (parent_of p) with
+           | Some fs' => if is_dir fs' (parent_of p) then Some (fs_put fs' p FDir) else None
+           | None => None
+           end
+    end
+  end end.
+
+Definition set_fs (st : state) (fs : fs_t) : state :=
+  set_orc st (mkOracle (o_libm (orc st)) (o_draws (orc st)) (o_clock (orc st)) (o_files (orc st)) fs).
+
+Definition fs_call (name : string) (args : list value) (st : state) : res value :=
+  let fs := o_fs (orc st) in
+  let ok (b : bool) := ROk (VBool b) st in
+  match args with
+  | [VStr p] =>
+    if str_eq name "PATH_EXISTS" then ok (match fs_get fs p with Some _ => true | None => false end)
+    else if str_eq name "PATH_IS_FILE" then ok (is_file fs p)
+    else if str_eq name "PATH_IS_DIRECTORY" then ok (is_dir fs p)
+    else if str_eq name "FILE_REMOVE" then
+      if is_file fs p then ROk (VBool true) (set_fs st (fs_del fs p)) else ok false
+    else if str_eq name "FILE_CREATE" then
+      match fs_get fs p with
+      | None => if is_dir fs (parent_of p) then ROk (VBool true) (set_fs st (fs_put fs p (FFile []))) else ok false
+      | Some _ => ok false
+      end
+    else if str_eq name "FILE_READ" then
+      match fs_get fs p with Some (FFile c) => ROk (VStr c) st | _ => ROk VNull st end
+    else if str_eq name "DIRECTORY_READ" then
+      if is_dir fs p then new_list st (map VStr (children fs p)) else ROk VNull st
+    else if str_eq name "DIRECTORY_CREATE" then
+      match fs_get fs p with
+      | None => if is_dir fs (parent_of p) then ROk (VBool true) (set_fs st (fs_put fs p FDir)) else ok false
+      | Some _ => ok false
+      end
+    else if str_eq name "DIRECTORY_CREATE_ALL" then
+      match mkdir_p (S (length p)) fs p with
+      | Some fs' => ROk (VBool true) (set_fs st fs')
+      | None => ok false
+      end
+    else if str_eq name "DIRECTORY_REMOVE" then
+      if is_dir fs p && match children fs p with [] => true | _ => false end
+      then ROk (VBool true) (set_fs st (fs_del fs p)) else ok false
+    else if str_eq name "DIRECTORY_REMOVE_ALL" then
+      if is_dir fs p
+      then ROk (VBool true) (set_fs st (filter (fun e => negb (text_eqb (fst e) p) && negb (below p (fst e))) fs))
+      else ok false
+    else RPanic PanicTable st
+  | [VStr p; v] =>
+    if str_eq name "FILE_APPEND" || str_eq name "FILE_OVERWRITE" then
+      match fs_get fs p with
+      | Some (FFile c) =>
+        match show_v st v with
+        | None => RFuel
+        | Some t => ROk (VBool true) (set_fs st (fs_put fs p (FFile (if str_eq name "FILE_APPEND" then c ++ t else t))))
+        end
+      | _ => ok false
+      end
+    else RPanic PanicTable st
+  | _ => RPanic PanicTable st
+  end.
+
 Definition native_call (m name : string) (sig : list akind) (args : list value) (spans : list span) (st : state) : res value :=
   let* _u, st1 <- check_args sig args spans st;
-  native_body m name args spans st1.
+  if str_eq m "FS" then fs_call name args st1 else native_body m name args spans st1.
 
 (** the procedures of a library module, as a function table *)
 Definition module_table (m : string) : ftable :=
